@@ -279,7 +279,7 @@ pub fn class(r: &mut Rng, cfg: &Cfg, st: &mut Stats) -> GClass {
 		}
 		if r.chance(1, 8) {
 			st.hit("attr:Module");
-			g.module = Some(GModule { name: text(r, cfg), flags: r.below(65536) as u16 & 0x9010, version: if r.chance(1, 2) { Some(text(r, cfg)) } else { None },
+			g.module = Some(GModule { name: text(r, cfg), flags: r.below(65536) as u16 & 0x9020, version: if r.chance(1, 2) { Some(text(r, cfg)) } else { None },
 				requires: (0..r.below(3)).map(|_| (text(r, cfg), r.below(65536) as u16 & 0x9060, if r.chance(1, 2) { Some(text(r, cfg)) } else { None })).collect(),
 				exports: (0..r.below(3)).map(|_| (text(r, cfg), r.below(65536) as u16 & 0x9000, (0..r.below(3)).map(|_| text(r, cfg)).collect())).collect(),
 				opens: (0..r.below(3)).map(|_| (text(r, cfg), r.below(65536) as u16 & 0x9000, (0..r.below(3)).map(|_| text(r, cfg)).collect())).collect(),
